@@ -269,7 +269,7 @@ func checkAlteration(c altCase, r *h.Rec) error {
 
 // altPlan lists the objects of one tier. Every signer key type appears with
 // every object kind; certificates also mix SM2 and non-SM2 subject keys.
-func altPlan(signers []int, objsPerCombo int, nchunk int, full func(kt int) bool, emit func(altCase)) {
+func altPlan(signers []int, objsPerCombo int, nchunk int, full func(rep int) bool, emit func(altCase)) {
 	for rep := 0; rep < objsPerCombo; rep++ {
 		for _, kt := range signers {
 			for obj := 0; obj < nAltObjs; obj++ {
@@ -279,7 +279,7 @@ func altPlan(signers []int, objsPerCombo int, nchunk int, full func(kt int) bool
 				seed := gen.Mix(h.Seed, uint64(rep), uint64(kt), uint64(obj), 0xa1)
 				subj := []int{kSM2, kP256, kRSA, kEd25519, kP384}[(rep+kt+obj)%5]
 				for ch := 0; ch < nchunk; ch++ {
-					emit(altCase{Obj: obj, KT: kt, SubjKT: subj, Rich: (rep + obj + kt) % 3, Seed: seed, Chunk: ch, NChunk: nchunk, Full: full(kt), Pos: -1})
+					emit(altCase{Obj: obj, KT: kt, SubjKT: subj, Rich: (rep + obj + kt) % 3, Seed: seed, Chunk: ch, NChunk: nchunk, Full: full(rep), Pos: -1})
 				}
 			}
 		}
@@ -300,12 +300,13 @@ func TestC15_AlterEC(t *testing.T) {
 
 func TestC15_AlterP384(t *testing.T) {
 	h.Sweep(t, h.P{Name: "alter-p384"}, func(emit func(altCase)) {
-		altPlan([]int{kP384}, h.Scale(1, 2), 6, func(int) bool { return false }, emit)
+		altPlan([]int{kP384}, h.Scale(1, 3), 6, func(int) bool { return false }, emit) // P-384 verification is slow: about 12 values per position in both tiers
 	}, checkAlteration)
 }
 
 func TestC15_AlterRSA(t *testing.T) {
 	h.Sweep(t, h.P{Name: "alter-rsa"}, func(emit func(altCase)) {
-		altPlan([]int{kRSA, kRSAPSS}, h.Scale(1, 3), 4, func(int) bool { return false }, emit)
+		// thorough: all 255 values for the first object of every kind, about 12 for the others (1 KiB objects)
+		altPlan([]int{kRSA, kRSAPSS}, h.Scale(1, 3), 4, func(rep int) bool { return h.Thorough() && rep == 0 }, emit)
 	}, checkAlteration)
 }
